@@ -105,7 +105,7 @@ def main():
         }],
         "checks": checks,
         "not_applicable": na,
-        "notes": "Family: runtime monitoring and sanitizers. Verdicts are three-valued (exit 0 held / 1 VIOLATION / 2 INCONCLUSIVE). 21 genuine defects of the tree as given were repaired by separate unguarded fix: commits in /repo (c1f3764..3184c11) and are listed as fixed: in KNOWN_FINDINGS.txt; there are no known: entries. No hooks were needed. selftest/ (mutants) and seeded/ (281 independently written changes from 16 rounds) document which checks catch which changes. See DESIGN.md.",
+        "notes": "Family: runtime monitoring and sanitizers. Verdicts are three-valued (exit 0 held / 1 VIOLATION / 2 INCONCLUSIVE). 21 genuine defects of the tree as given were repaired by separate unguarded fix: commits in /repo (c1f3764..3184c11) and are listed as fixed: in KNOWN_FINDINGS.txt; there are no known: entries. No hooks were needed. selftest/ (mutants) and seeded/ (299 independently written changes from 17 rounds) document which checks catch which changes. See DESIGN.md.",
     }
     json.dump(m, open(os.path.join(HERE, "MANIFEST.json"), "w"), indent=1, ensure_ascii=False)
     print("MANIFEST.json: %d checks, %d not_applicable" % (len(checks), len(na)))
